@@ -190,12 +190,28 @@ def check_call(fq, args, kwargs=None, contract=None, fn=None):
                 break
     for p, t in bad:
         return {"status": "skip", "why": "argument %s not of type %s" % (p, t)}
-    try:
-        for nm, pre in named(c.get("requires"), "pre"):
-            if not ev(pre, env):
-                return {"status": "skip", "why": "precondition %s false" % nm}
-    except Exception as e:  # a precondition that cannot be evaluated = out of domain
-        return {"status": "skip", "why": "precondition not evaluable: %r" % (e,)}
+    def _pre_ok(cc):
+        try:
+            for nm, pre in named(cc.get("requires"), "pre"):
+                if not ev(pre, env):
+                    return "precondition %s false" % nm
+        except Exception as e:  # a precondition that cannot be evaluated = out of domain
+            return "precondition not evaluable: %r" % (e,)
+        return None
+    why = _pre_ok(c)
+    if why is not None and c.get("variants"):
+        # variants may also differ by precondition (same argument kinds, another state of the receiver)
+        for var in c["variants"]:
+            vt = var.get("params") or {}
+            if all(p not in env or type_ok(env[p], t) for p, t in vt.items()):
+                cc = dict(c)
+                cc.pop("variants")
+                cc.update(var)
+                if _pre_ok(cc) is None:
+                    c, why = cc, None
+                    break
+    if why is not None:
+        return {"status": "skip", "why": why}
     for nm, expr in (c.get("old") or {}).items():
         # pre-state values are copies, except names the contract uses for object IDENTITY (same_object(..., old_x))
         env[nm] = ev(expr, env) if nm in (c.get("old_by_reference") or ()) else copy.deepcopy(ev(expr, env))
